@@ -103,6 +103,18 @@ fn gen_lib(src: &mut Src) -> MLib {
     }
     let mut listing: Vec<usize> = (0..nc).collect();
     src.shuffle(&mut listing);
+    // a cell may be instantiated without being listed (it lives in another library's list): the export
+    // carries it all the same, before its users
+    if src.prob(1, 8) {
+        let cands: Vec<usize> = (0..nc).filter(|x| (0..nc).any(|y| y != *x && cells[y].has_layout && cells[y].insts.iter().any(|i| i.target == *x))).collect();
+        if !cands.is_empty() {
+            let x = cands[src.index(cands.len())];
+            // every user of x that stays listed keeps x reachable; x's own users above it may be unlisted only if x is
+            if (0..nc).any(|y| y != x && cells[y].insts.iter().any(|i| i.target == x)) {
+                listing.retain(|c| *c != x);
+            }
+        }
+    }
     MLib { name: src.pick(&["tlib", "T L", ""]).to_string(), cells, listing }
 }
 fn tc(t: &TC) -> TrackCross {
@@ -312,7 +324,9 @@ fn negative_case(src: &mut Src, ctx: &mut Ctx) -> Result<(), String> {
                             true
                         }
                         1 | 2 | 3 | 4 | 9 | 10 | 11 => {
-                            if let Some(i) = l.instances.first_mut() {
+                            // (any instance of the layout, not just its first)
+                            let ni = l.instances.len();
+                            if let Some(i) = l.instances.get_mut(start % ni.max(1)) {
                                 match kind {
                                     1 => i.loc = None,
                                     2 => i.loc = Some(tproto::Place { place: None }),
